@@ -2103,7 +2103,7 @@ package xpath
 //@ func roundHalfUp
 //@   props C15 C09
 //@   modifies nothing
-//@   ensures[xpath-round@C09] sameF(result, xround(f))
-//@   ensures[integral@C09] !isNaN(f) && !isInf(f) ==> floor(result) == result
-//@   ensures[not-above-half@C09] !isNaN(f) && !isInf(f) ==> result - f <= 0.5
-//@   ensures[below-half@C09] !isNaN(f) && !isInf(f) ==> f - result < 0.5
+//@   ensures[xpath-round@C09!] sameF(result, xround(f))
+//@   ensures[integral@C09!] !isNaN(f) && !isInf(f) ==> floor(result) == result
+//@   ensures[not-above-half@C09!] !isNaN(f) && !isInf(f) ==> result - f <= 0.5
+//@   ensures[below-half@C09!] !isNaN(f) && !isInf(f) ==> f - result < 0.5
